@@ -232,6 +232,8 @@ func ParseField(v reflect.Value, bytes []byte, params fieldParameters) error {
 	if int64(talOff)+tal.len > int64(len(bytes)) {
 		return fmt.Errorf("type value out of range")
 	}
+	// the element ends where its length says: what follows it is not its content
+	bytes = bytes[:int64(talOff)+tal.len]
 
 	// The element must carry the tag its type and parameters call for.
 	if params.tagNumber != nil {
